@@ -338,11 +338,16 @@ def run_session(items, tid=0, thread="main", with_results=False):
     return events, results
 
 
+def _fmt3(x):
+    return "%.3f" % x
+
+
 PRIORS = [
     ("default", lambda: None),
     ("seterr-raise", lambda: numpy.seterr(all="raise")),
     ("seterr-warn+warnings-error", lambda: (numpy.seterr(all="warn"), warnings.simplefilter("error"))),
-    ("warnings-ignore+printoptions", lambda: (warnings.simplefilter("ignore"), numpy.set_printoptions(precision=3, suppress=True))),
+    ("warnings-ignore+printoptions", lambda: (warnings.simplefilter("ignore"),
+                                              numpy.set_printoptions(precision=3, suppress=True, formatter={"float_kind": _fmt3}))),
 ]
 
 
